@@ -181,3 +181,10 @@ def run(ctx):
             else:
                 ctx.mismatch(f"{c['det']} model <> implementation: n={c['n']} m={c['m']} anomalies={anoms}", inp,
                              {"what": "model-mismatch", "det": c["det"]})
+    # ---- object reuse: real savings, the same detector over several series ----
+    from harness.reuse import reuse_stream
+    from skchange.anomaly_detectors import CAPA, MVCAPA
+    from skchange.costs import GaussianVarCost
+    reuse_stream(ctx, "CAPA", lambda: CAPA(min_segment_length=2), ctx.n(5, 30))
+    reuse_stream(ctx, "CAPA(GaussianVarCost)", lambda: CAPA(collective_saving=GaussianVarCost((0.0, 1.0)), min_segment_length=3, ignore_point_anomalies=True), ctx.n(3, 20))
+    reuse_stream(ctx, "MVCAPA", lambda: MVCAPA(min_segment_length=2), ctx.n(5, 30), p_choices=(2, 3))
